@@ -29,7 +29,8 @@ META = {
         "sampler configuration of the sampler that is about to run. This is the necessary condition that breaks in the "
         "refit-then-sample history; other histories are not explored."
     ),
-    "not_decided": "consistency under arbitrary operation sequences (nested contexts, resume then sample with another sampler, importance sampling next to an older SMC checkpoint): needs state-space exploration",
+    "not_decided": "consistency under arbitrary operation sequences (nested contexts, resume then sample with another sampler): needs state-space exploration; "
+                   "two further histories are decided by their structural cause (a non-checkpointing sampler swapping /flow under an old checkpoint: C14.nocp; fit rewriting the configuration next to a checkpoint: C14.fit)",
     "assumptions": [],
 }
 
@@ -163,6 +164,13 @@ def run(ctx):
             if any(c[0] == "in" and c[1] == T.K("flow") and pol for c, pol in fc):
                 repl.append((e, fc))
     ctx.floor("flow replacements in fit()", len(repl), 1)
+    # fit() also rewrites /aspire_config, with the sampler type the instance used last: next to a checkpoint another sampler wrote, that names the wrong sampler
+    for i, e in enumerate(e_ for e_ in evf.events if e_.func is fit and e_.callee.endswith("Aspire.save_config")):
+        fc = flat_conds(e.conds)
+        looks = any(any(x == T.K("checkpoint") for x in T.subterms(c)) for c, pol in fc)
+        ctx.decide(looks, "C14.fit", fit.ident, loc_of(fit, e.node), "fit rewrites the stored configuration only after looking at whether the file holds a checkpoint",
+                   "fit(..., checkpoint_path=f) deletes and rewrites /aspire_config without looking at /checkpoint: the configuration it writes carries the sampler type this instance used "
+                   "last (or none), so a file holding an SMC checkpoint ends up with a configuration that names another sampler", disc=f"config|{i}")
     for i, (e, fc) in enumerate(repl):
         rest = {(c, pol) for c, pol in fc if not (c[0] == "in" and c[1] == T.K("flow")) and not any(x == T.atom("checkpoint_path") for x in T.subterms(c))}
         ctx.decide(rest == {(T.atom("overwrite"), True)}, "C14.fit", fit.ident, loc_of(fit, e.node), "fit replaces a flow already in the file only when the caller passes overwrite",
